@@ -151,7 +151,7 @@ def runRing (capS ops : String) : String :=
   match capS.toNat? with
   | none => "ERR parse"
   | some cap =>
-    let step (st : Ring Int × List String) (op : String) : Ring Int × List String :=
+    let step (st : RingBuf Int × List String) (op : String) : RingBuf Int × List String :=
       let (r, out) := st
       match op.splitOn ":" with
       | ["put", v] =>
@@ -169,14 +169,14 @@ def runRing (capS ops : String) : String :=
       | ["full"] => (r, (if r.isFull then "t" else "f") :: out)
       | ["empty"] => (r, (if r.isEmpty then "t" else "f") :: out)
       | _ => (r, "bad" :: out)
-    let (_, outs) := (splitList ops ",").foldl step (Ring.new (0 : Int) cap, [])
+    let (_, outs) := (splitList ops ",").foldl step (RingBuf.new (0 : Int) cap, [])
     "ok " ++ ",".intercalate outs.reverse
 
 def intCmp : Cmp Int := { le := fun a b => a ≤ b, lt := fun a b => a < b, eq := fun a b => a == b }
 def floatCmp : Cmp Float := { le := fun a b => a ≤ b, lt := fun a b => a < b, eq := fun a b => a == b }
 
 def runBst (ops : String) (wantShape : Bool) : String :=
-  let step (st : Tree Int × List String) (op : String) : Tree Int × List String :=
+  let step (st : BTree Int × List String) (op : String) : BTree Int × List String :=
     let (t, out) := st
     match op.splitOn ":" with
     | ["ins", v] =>
@@ -194,11 +194,11 @@ def runBst (ops : String) (wantShape : Bool) : String :=
     | ["min"] => (t, s!"{Bst.minD 0 t}" :: out)
     | ["max"] => (t, s!"{Bst.maxD 0 t}" :: out)
     | _ => (t, "bad" :: out)
-  let (t, outs) := (splitList ops ",").foldl step (Tree.nil, [])
+  let (t, outs) := (splitList ops ",").foldl step (BTree.nil, [])
   "ok " ++ ",".intercalate outs.reverse ++ (if wantShape then " | " ++ t.shape toString else "")
 
 def runBstF (ops : String) : String :=
-  let step (st : Tree Float × List String) (op : String) : Tree Float × List String :=
+  let step (st : BTree Float × List String) (op : String) : BTree Float × List String :=
     let (t, out) := st
     match op.splitOn ":" with
     | ["ins", v] =>
@@ -216,7 +216,7 @@ def runBstF (ops : String) : String :=
     | ["min"] => (t, hexOfFloat (Bst.minD 0.0 t) :: out)
     | ["max"] => (t, hexOfFloat (Bst.maxD 0.0 t) :: out)
     | _ => (t, "bad" :: out)
-  let (_, outs) := (splitList ops ",").foldl step (Tree.nil, [])
+  let (_, outs) := (splitList ops ",").foldl step (BTree.nil, [])
   "ok " ++ ",".intercalate outs.reverse
 
 def handle (line : String) : String :=
